@@ -15,6 +15,8 @@
 (*   {"ev":"begin","id":i,"op":"reqcq","txn":t,"out":..}                        *)
 (*   {"ev":"begin","id":i,"op":"endcq","txn":t}                                 *)
 (*   {"ev":"begin","id":i,"op":"metrics","nfw":a,"ncq":b}                       *)
+(*   {"ev":"begin","id":i,"op":"scrape","out":"ok"}   read of the used-quota    *)
+(*                                                    gauges of both quotas     *)
 (*   {"ev":"end","id":i}                                                        *)
 EXTENDS TraceLib, Integers, FiniteSets
 
@@ -60,6 +62,7 @@ LLin == \E p \in pend :
          [] p.rec.op = "endcq"   -> S!EndCq(p.rec.txn)
          [] p.rec.op = "metrics" -> S!Metrics(p.rec.nfw, p.rec.ncq)
          [] p.rec.op = "reqsel"  -> S!ReqSel(p.rec.url, p.rec.out)
+         [] p.rec.op = "scrape"  -> S!Scrape(p.rec.out)
     /\ pend' = pend \ {p}
     /\ done' = done \cup {p.rec.id}
     /\ UNCHANGED l
